@@ -23,6 +23,9 @@ func configVariants(scs []engine.Scenario, tier string, which ...string) []engin
 			return nil
 		}
 		scs = scs[:1]
+	} else if n := firstN(scs, 4); n < len(scs) {
+		// thorough tier: variants of the first four scenarios given (callers slice to choose others)
+		scs = scs[:n]
 	}
 	var out []engine.Scenario
 	for _, sc := range scs {
@@ -146,4 +149,33 @@ func from(scs []engine.Scenario, name string) []engine.Scenario {
 		}
 	}
 	panic("no scenario " + name)
+}
+
+// firstN returns the length of the prefix of scs that holds n distinct scenarios (the shards of a
+// sharded scenario count as one).
+func firstN(scs []engine.Scenario, n int) int {
+	seen := 0
+	for i, sc := range scs {
+		if sc.ShardN <= 1 || sc.ShardIdx == 0 {
+			seen++
+			if seen > n {
+				return i
+			}
+		}
+	}
+	return len(scs)
+}
+
+// only returns the scenario with the given name (all its shards, if sharded).
+func only(scs []engine.Scenario, name string) []engine.Scenario {
+	var out []engine.Scenario
+	for _, sc := range scs {
+		if sc.Name == name || strings.HasPrefix(sc.Name, name+"#") {
+			out = append(out, sc)
+		}
+	}
+	if len(out) == 0 {
+		panic("no scenario " + name)
+	}
+	return out
 }
